@@ -1953,6 +1953,9 @@ func (e *CoreExtension) filterNumberFormat(value interface{}, args ...interface{
 	// Format the number
 	format := "%." + strconv.Itoa(decimals) + "f"
 	str := fmt.Sprintf(format, num)
+	if strings.Trim(str, "-0.") == "" {
+		str = strings.TrimPrefix(str, "-") // a value that rounds to zero has no sign
+	}
 
 	// Split into integer and fractional parts
 	parts := strings.Split(str, ".")
